@@ -32,6 +32,9 @@ type T2 struct {
 
 var sharedRM = valid.RM{}
 
+// isolatedBudget: child executions this worker may still spend on the one-process-per-execution fallback.
+var isolatedBudget = 2000
+
 type LongSlices struct {
 	S []string `valid:"unique,ints,le=100"`
 	I []int    `valid:"unique,ints,le=100"`
@@ -348,10 +351,37 @@ func run(c *runner.Ctx) {
 			c.State(obsKey)
 			return ok
 		}
-		res := ex.Explore()
+		var res vsched.Result
+		if choices, child := vsched.ChildChoices(); child {
+			x := ex.Replay(choices)
+			if dv := ex.Diverged(); dv != "" {
+				fmt.Fprintf(os.Stderr, "HARNESS-ERROR: %s in a fresh process (sequence %v)\n", dv, names)
+				os.Exit(3)
+			}
+			vsched.WriteChildResult(x, ex.Check(x))
+			res = vsched.Result{Execs: 1, Steps: int64(len(x.Trace))}
+		} else {
+			res = ex.Explore()
+		}
 		if res.Diverged != "" {
-			fmt.Fprintf(os.Stderr, "HARNESS-ERROR: %s (sequence %v)\n", res.Diverged, names)
-			os.Exit(3)
+			// process-global state of the code under test survives between executions: one process per execution
+			if isolatedBudget <= 0 {
+				c.MarkIncomplete()
+				c.Note("replay divergence (process-global state survives between executions); isolated-process budget used up")
+				c.Done(false, 0)
+				return
+			}
+			c.Count("sequences_explored_with_one_process_per_execution", 1)
+			ex.Remote = vsched.RemoteVia(c.RunCaseInChild, os.Getenv("VERIF_SCRATCH"), &isolatedBudget, func(prefix []int, stderr string, err error) {
+				if strings.Contains(stderr, "HARNESS-ERROR") {
+					fmt.Fprintln(os.Stderr, stderr)
+					os.Exit(3)
+				}
+				c.Violation("isolated-execution-crashed", map[string]interface{}{"sequence": names, "pool_schedule": prefix, "error": err.Error(), "stderr": stderr})
+			})
+			ex.Opt.StopAtFirst = true
+			res = ex.Explore()
+			ex.Remote = nil
 		}
 		if res.Capped {
 			c.MarkIncomplete()
